@@ -167,7 +167,7 @@ let () =
     match split_on '\t' line with
     | id :: "D" :: cfg :: runs :: _ ->
       let c = (match split_on ',' cfg with
-               | [kw; kb; o] -> { keep_wal = nat_of_int (int_of_string kw); keep_backup = nat_of_int (int_of_string kb); opt_fsync = (o = "1") }
+               | [kw; kb; o] -> { keep_wal = nat_of_int (int_of_string kw); keep_backup = nat_of_int (int_of_string kb); opt_fsync = (o = "1"); persist_first = true; clean_orphans = true }
                | _ -> failwith "bad config") in
       let raw = Str.split_delim (Str.regexp_string " | ") runs in
       let out = ref [] in
